@@ -2,13 +2,15 @@
 calculate_centroids, abs_norm_dot_product, wirelength, spectral_layout_die; tools/spectral/spectral.py:
 Spectral.spectral_layout; frame/netlist/module.py: Module.recenter_rectangles)."""
 import math
+import os
 import random
 from fractions import Fraction as F
 
 from harness import core, fr
 from harness.core import gq, gbool, glist, gopt, gnat, gstr
 
-HEADER = """From FrameModel Require Import Num.QcTac Geometry.Rect Cases.Cmp Spectral.Normalize Cases.CmpC14.
+HEADER = """From FrameModel Require Import Num.QcTac Geometry.Rect Cases.Cmp Spectral.Normalize Spectral.Iterate Cases.CmpC14
+  Cases.CmpC14Iter.
 Open Scope Qc_scope."""
 
 ASSUMPTIONS = [
@@ -31,7 +33,11 @@ ASSUMPTIONS = [
     "zero) do not return a layout and are outside the property; they are counted in the evidence",
     "movable terminals are not generated: recenter_rectangles divides by the (zero) rectangle area of a terminal",
     "several calls on one Spectral object: the model's object state is what __init__ stores once (graph, radii, fixed flags, "
-    "the centre matrix) plus the modules; the model is built from the netlist observed after construction and then runs on "
+    "the centre matrix) plus the modules; the model's object is built by the model's constructor (spectral_new) from the INPUT "
+    "of the real constructor - the modules as the plain Netlist class reads the same text before any Spectral object exists, "
+    "the nets as the harness wrote them (names in the order listed, repeated names kept, weight) - its graph is the model's "
+    "clique graph of those nets (compared with the observed adjacency lists as a weighted graph: total weight between every "
+    "two nodes within 16 roundings; the order inside an adjacency list is not compared), and it then runs on "
     "ITS OWN state from call to call (only the iteration vectors of each call are taken from the record). The centre matrix "
     "is faithful to the code: a call with trials > 0 wipes the movable entries for good, init mode reads the matrix as "
     "stored at construction (not the modules' present centres) - neither touches the property",
@@ -43,6 +49,17 @@ ASSUMPTIONS = [
     "at magnitude 64; the kernel oracle accepts a position within max(64e-9, 2 * distance epsilon) of the centre",
     "shared Point objects (a centre shared by a module and its square) are not generated: create_square never runs for a "
     "movable hard module with rectangles, and the netlist reader gives every module its own centre Point",
+    "the oracle judges the first call on an object against the input of its constructor BY VALUE (nets = what the caller "
+    "wrote; areas, flags, rectangles = the plain Netlist reading of the same text), never against a snapshot of the object; "
+    "the argument itself (file, open handle, YAML tree) and the die Shape must still mean the same netlist / die afterwards "
+    "(a tree is compared by re-reading it with the plain Netlist class, not by representation)",
+    "inside the loop of spectral_layout_die: for the iterations looked into (case field look = first / last iterations, "
+    "largest graph, trials; all structured cases and every 8th (thorough: 3rd) random one) the row handed to normalize must "
+    "be the model's iter_vec of the previous normalize output within 1e-9 * max(1, |row|), either path being accepted when "
+    "the spread of the new row is within a factor 2 of epsilon; the convergence test must agree with the model's except "
+    "within epsilon/1000 of a bound or under 30-fold cancellation; a row that vanishes exactly under orthogonalisation is "
+    "not compared; the number of iterations a trial reports must be the number of normalize calls minus one",
+    "nets that list a module twice are inside the quantifier (the reader accepts them; 'every module is on some net' holds)",
     "kind cli (tools.spectral.spectral.main) is observed through the files it reads and writes and checked by the direct "
     "oracle only; module and net order of the output file are not compared",
 ]
@@ -50,6 +67,10 @@ ASSUMPTIONS = [
 THR = 10e-10
 SAMPLE_ALL = True        # how many of the recorded normalize calls are checked one by one (set per tier in run)
 ATOL = 10e-12
+# case["look"] = (head, tail, nmax, ntr): the first `head` and the last `tail` iterations of every dimension are compared
+# step by step with the model, in graphs of at most `nmax` nodes, in the first `ntr` trials of a call (exact rationals
+# of 500 bits are slow under vm_compute); set per case in run, (1, 1, 8, 1) for corpus and replayed cases
+ITER_LIMIT = 10000       # "num_iter < 10000"
 TINY = [1e-9, 2e-9, 5e-10, 1.5e-9, 1e-12, 3e-9, 1e-10, 9.999e-10, math.nextafter(1e-9, 0.0), math.nextafter(1e-9, 1.0), 1e-9]
 
 
@@ -262,6 +283,227 @@ def gen_layout(rng, nmov=None):
     return {"kind": "layout", "W": W, "H": H, "mods": mods, "nets": nets, "nf": nf, "seed": rng.randrange(0, 10000)}
 
 
+# ---------------------------------------------------------------- structured graphs, starts and masses
+# The deterministic init mode (0 trials) starts from the centres it is given: on a bipartite graph a start that takes
+# one value per side is sent to a single point by the centroid step ("all nodes ended in the same place"), all-equal
+# or centred starts vanish under orthogonalisation, a start that already is an eigenvector converges at once.
+STRUCT_KINDS = ["ring_even", "ring_even", "ring_even", "kbip", "kbip", "star", "star", "grid", "grid", "path", "tree",
+                "cube", "ring_odd", "complete", "wheel"]
+
+
+def two_colouring(n, edges):
+    col, adjl = [None] * n, [[] for _ in range(n)]
+    for a, b in edges:
+        adjl[a].append(b)
+        adjl[b].append(a)
+    for r in range(n):
+        if col[r] is None:
+            col[r], todo = 0, [r]
+            while todo:
+                a = todo.pop()
+                for b in adjl[a]:
+                    if col[b] is None:
+                        col[b] = 1 - col[a]
+                        todo.append(b)
+                    elif col[b] == col[a]:
+                        return None
+    return col
+
+
+def struct_graph(rng, kind=None, big=False):
+    """(kind, number of nodes, edges, side of every node when the graph is bipartite)"""
+    kind = kind or rng.choice(STRUCT_KINDS)
+    if kind == "ring_even":
+        n = rng.choice([4, 4, 4, 6, 8] + ([10, 16] if big else []))
+        edges = [(i, (i + 1) % n) for i in range(n)]
+    elif kind == "ring_odd":
+        n = rng.choice([5, 7])
+        edges = [(i, (i + 1) % n) for i in range(n)]
+    elif kind == "path":
+        n = rng.choice([4, 5, 6])
+        edges = [(i, i + 1) for i in range(n - 1)]
+    elif kind == "star":
+        n = rng.choice([4, 5, 6, 7] + ([9, 17] if big else []))
+        edges = [(0, i) for i in range(1, n)]
+    elif kind == "kbip":
+        a = rng.choice([1, 2, 2, 3])
+        b = rng.choice([x for x in (2, 3, 4, 5) if 4 <= a + x <= 7])
+        n = a + b
+        edges = [(i, a + j) for i in range(a) for j in range(b)]
+    elif kind == "grid":
+        r, c = rng.choice([(2, 2), (2, 3), (2, 4), (3, 3)] + ([(4, 4)] if big else []))
+        n = r * c
+        edges = [(i * c + j, i * c + j + 1) for i in range(r) for j in range(c - 1)] + \
+                [(i * c + j, (i + 1) * c + j) for i in range(r - 1) for j in range(c)]
+    elif kind == "cube":
+        n = 8
+        edges = [(i, i ^ b) for i in range(8) for b in (1, 2, 4) if i < i ^ b]
+    elif kind == "complete":
+        n = rng.choice([4, 5])
+        edges = [(i, j) for i in range(n) for j in range(i + 1, n)]
+    elif kind == "wheel":
+        n = rng.choice([5, 6, 7])
+        edges = [(0, i) for i in range(1, n)] + [(i, i % (n - 1) + 1) for i in range(1, n)]
+    else:       # a random tree (always bipartite)
+        n = rng.choice([4, 5, 6, 7])
+        edges = [(i, rng.randrange(0, i)) for i in range(1, n)]
+    if rng.random() < 0.3:          # the same graph with its nodes numbered in another order
+        perm = list(range(n))
+        rng.shuffle(perm)
+        edges = [(perm[a], perm[b]) for a, b in edges]
+    return kind, n, edges, two_colouring(n, edges)
+
+
+def struct_masses(rng, n, sides, top):
+    """dyadic masses in (0, top]: equal, the two sides of the graph in balance (same total), one big, random"""
+    top = max(F(1, 4), F(int(top * 4), 4))
+    style = rng.choice(["equal", "balanced", "balanced", "onebig", "random"])
+    col = sides if sides is not None else [i % 2 for i in range(n)]
+    if style == "equal":
+        return style, [dy(rng, F(1, 4), top, 4)] * n
+    if style == "balanced":
+        # both sides sum to `tot`: every node of a side gets a share k/64 of it (the demo: 20 + 20 = 39.9 + 0.1)
+        ms = [None] * n
+        tot = dy(rng, F(1, 2), top, 4)
+        for side in (0, 1):
+            idx = [i for i in range(n) if col[i] == side]
+            if not idx:
+                continue
+            cuts = sorted(rng.randrange(1, 64) for _ in range(len(idx) - 1))
+            if rng.random() < 0.3 and len(idx) >= 2:
+                cuts = [1] + cuts[1:]                  # a very small module beside a very large one
+            bounds = [0] + cuts + [64]
+            for i, lo, hi in zip(idx, bounds, bounds[1:]):
+                ms[i] = tot * F(max(hi - lo, 0), 64)
+        ms = [m if m and m > 0 else tot * F(1, 64) for m in ms]
+        return style, ms
+    if style == "onebig":
+        ms = [dy(rng, F(1, 4), max(F(1, 4), top / 16), 8) for _ in range(n)]
+        ms[rng.randrange(n)] = top
+        return style, ms
+    return style, [dy(rng, F(1, 4), top, 4) for _ in range(n)]
+
+
+START_KINDS = ["mirror"] * 12 + ["eigen"] * 3 + ["symmetric", "symmetric", "collinear", "collinear", "three", "three", "random",
+                                                 "random", "equal", "centre"]
+
+
+def struct_start(rng, n, sides, S, kind=None):
+    """given coordinates in [0, S] for every node: one value per side of the graph (a mirror placement), all equal, all
+    at the centre of the die, symmetric about a point, equally spaced, three values, random"""
+    kind = kind or rng.choice(START_KINDS)
+    col = sides if sides is not None else [i % 2 for i in range(n)]
+    if kind == "mirror":
+        p, q = dy(rng, 0, S, 8), dy(rng, 0, S, 8)
+        if rng.random() < 0.25:
+            q = S - p                                # mirrored about the centre of the die
+        return kind, [p if col[i] == 0 else q for i in range(n)]
+    if kind == "equal":
+        return kind, [dy(rng, 0, S, 8)] * n
+    if kind == "centre":
+        return kind, [S / 2] * n
+    if kind == "symmetric":
+        m = dy(rng, S / 4, 3 * S / 4, 8)
+        ds = [dy(rng, 0, min(m, S - m), 8) for _ in range((n + 1) // 2)]
+        xs = [m + ds[i // 2] * (1 if i % 2 == 0 else -1) for i in range(n)]
+        return kind, xs
+    if kind == "collinear":
+        step = S / (4 * n)
+        a = dy(rng, 0, S / 2, 8)
+        return kind, [a + i * step for i in range(n)]
+    if kind == "three":
+        vals = [dy(rng, 0, S, 8) for _ in range(3)]
+        return kind, [vals[(col[i] + (i % 3 == 0)) % 3] for i in range(n)]
+    if kind == "eigen":
+        # +1 / -1 by parity of the node number about an off-centre point: an eigenvector of even rings and hypercubes
+        m, d = dy(rng, S / 4, 3 * S / 4, 8), dy(rng, 0, S / 4, 8)
+        return kind, [m + d * (1 if i % 2 == 0 else -1) for i in range(n)]
+    return kind, [dy(rng, 0, S, 8) for _ in range(n)]
+
+
+def gen_die_struct(rng):
+    """spectral_layout_die on a structured graph from a structured, fully given start"""
+    gk, n, edges, sides = struct_graph(rng)
+    W, H = dy(rng, 2, 24, 4), dy(rng, 2, 24, 4)
+    if rng.random() < 0.3:
+        H = W
+    rmax = min(W, H) / 2
+    mstyle, mass = struct_masses(rng, n, sides, F(314, 100) * rmax * rmax * F(8, 10))
+    w = rng.choice([F(1), F(1), F(2), F(1, 2)])
+    adj = [[] for _ in range(n)]
+    for a, b in edges:
+        we = w if rng.random() < 0.85 else dy(rng, 1, 8, 4)
+        adj[a].append([b, we])
+        adj[b].append([a, we])
+    sx, ix = struct_start(rng, n, sides, W)
+    sy, iy = struct_start(rng, n, sides, H, None if rng.random() < 0.35 else "random")
+    fx = [False] * n
+    if rng.random() < 0.15:
+        fx[rng.randrange(n)] = True
+    return {"kind": "die", "struct": f"{gk}/{sx}/{sy}/{mstyle}", "adj": adj, "mass": [float(m) for m in mass], "W": W, "H": H,
+            "ini": [ix, iy], "fx": fx, "seed": rng.randrange(0, 1000)}
+
+
+def gen_layout_struct(rng, big=False):
+    """a netlist whose nets are the edges of a structured graph, soft (some hard) modules with given centres, placed
+    in init mode (0 trials) most of the time"""
+    gk, n, edges, sides = struct_graph(rng, big=big)
+    W, H = dy(rng, 2, 32, 4), dy(rng, 2, 32, 4)
+    if rng.random() < 0.4:
+        H = W
+    rmax = min(W, H) / 2
+    mstyle, mass = struct_masses(rng, n, sides, F(314, 100) * rmax * rmax * F(85, 100))
+    sx, ix = struct_start(rng, n, sides, W)
+    sy, iy = struct_start(rng, n, sides, H, None if rng.random() < 0.35 else "random")
+    if rng.random() < 0.3:
+        (sx, ix), (sy, iy) = (sy, iy), (sx, ix)          # the structured start in y: orthogonalised against two rows
+        ix, iy = [x * W / H for x in ix], [y * H / W for y in iy]
+    mods = []
+    for i in range(n):
+        if rng.random() < 0.2:
+            h = rng.choice([F(1), F(2), F(1, 2)])
+            w = mass[i] / h
+            if ix[i] - w / 2 >= 0 and iy[i] - h / 2 >= 0:
+                mods.append({"name": f"M{i}", "kind": "hard", "rects": [[ix[i], iy[i], w, h]]})
+                continue
+        mods.append({"name": f"M{i}", "kind": "soft", "area": float(mass[i]), "center": [ix[i], iy[i]]})
+    w = rng.choice([1.0, 1.0, 2.0, 0.5])
+    nets = [{"mods": [f"M{a}", f"M{b}"], "w": w if rng.random() < 0.85 else float(rng.choice([1, 2, 3, 0.5]))} for a, b in edges]
+    if rng.random() < 0.12:
+        # a fixed terminal hanging on one node
+        mods.append({"name": "T0", "kind": "termfixed", "center": [rng.choice([F(0), W, dy(rng, 0, W, 8)]), dy(rng, 0, H, 8)]})
+        nets.append({"mods": ["T0", f"M{rng.randrange(n)}"], "w": 1.0})
+    nf = rng.choice([0, 0, 0, 0, 1, 2])
+    return {"kind": "layout", "struct": f"{gk}/{sx}/{sy}/{mstyle}", "W": W, "H": H, "mods": mods, "nets": nets, "nf": nf,
+            "seed": rng.randrange(0, 10000)}
+
+
+def repeat_pins(rng, case):
+    """nets that list a module more than once (the reader accepts them; every listed pin is a pin), the same net twice"""
+    nets = [dict(e, mods=list(e["mods"])) for e in case["nets"]]
+    names = [m["name"] for m in case["mods"]]
+    for _ in range(rng.choice([1, 1, 2])):
+        how = rng.choice(["insert", "insert", "insert", "pair", "aba", "twice", "triple"])
+        if how == "insert":                      # [a, d, e] -> [a, d, a, e]
+            e = rng.choice(nets)
+            e["mods"].insert(rng.randrange(1, len(e["mods"]) + 1), rng.choice(e["mods"]))
+        elif how == "pair":                      # [a, a]
+            a = rng.choice(names)
+            nets.append({"mods": [a, a], "w": float(rng.choice([1, 2, 0.5]))})
+        elif how == "aba":                       # [a, b, a]
+            a, b = rng.sample(names, 2)
+            nets.append({"mods": [a, b, a], "w": float(rng.choice([1, 3, 0.5]))})
+        elif how == "triple":                    # [a, a, a, b]
+            a, b = rng.sample(names, 2)
+            nets.append({"mods": [a, a, a, b], "w": 1.0})
+        else:                                    # the same net listed twice
+            e = rng.choice(nets)
+            nets.insert(rng.randrange(len(nets) + 1), dict(e, mods=list(e["mods"])))
+    case["nets"] = nets
+    case["pins"] = "repeated"
+    return case
+
+
 NAME_SETS = {
     "prefix": ["A", "A_0", "A_1", "A1", "A10", "A_io", "AA", "A_", "_A", "A0", "A_0_0", "A11", "a", "A_1_0", "A2", "Aa"],
     "words": ["no", "on", "null", "Y", "N", "yes", "True", "off", "n", "y", "NO", "Null", "false", "nan", "inf", "On"],
@@ -279,7 +521,7 @@ def decorate(rng, case):
         case["mods"] = [dict(m, name=ren[m["name"]]) for m in case["mods"]]
         case["nets"] = [dict(e, mods=[ren[n] for n in e["mods"]]) for e in case["nets"]]
     case["names"] = style
-    case["form"] = rng.choice(["text", "text", "file"])
+    case["form"] = rng.choice(["text", "text", "file", "tree", "tree", "stream", "handle"])
     case["ints"] = rng.random() < 0.3
     for m in case["mods"]:
         if m["kind"] == "hard" and len(m["rects"]) > 1 and rng.random() < 0.3:
@@ -326,13 +568,20 @@ COINCIDE = [("same", "edge0"), ("edge1", "same"), ("same", "edge1"), ("edge0", "
             ("orig", "above-"), ("below-", "below+"), ("above+", "edge1")]
 
 
-def gen_chain(rng, nmov=None):
+def gen_chain(rng, nmov=None, base=None):
+    given = base is not None
     for _ in range(40):
+        if given:
+            break
         base = gen_layout(rng, nmov)
         if any(m["kind"] == "hard" for m in base["mods"]):
             break
+    if not given and rng.random() < 0.25:
+        repeat_pins(rng, base)
     decorate(rng, base)
     style = rng.choice(["coincide", "coincide", "coincide", "session", "session", "rebuild"])
+    if given:
+        style = rng.choice(["session", "session", "rebuild"])
     call0 = {"W": base["W"], "H": base["H"], "nf": base["nf"], "seed": base["seed"]}
     all_centres = all(m["kind"] != "soft" or "center" in m or m.get("rects") for m in base["mods"])
     if call0["nf"] == 0 and not all_centres:
@@ -355,8 +604,11 @@ def gen_chain(rng, nmov=None):
         if rng.random() < 0.25:
             calls1.append(other_call(rng, base, init_ok=False))
         phases = [{"calls": [call0]}, {"edit": edit, "calls": calls1}]
-    return {"kind": "chain", "style": style, "W": base["W"], "H": base["H"], "mods": base["mods"], "nets": base["nets"],
-            "names": base["names"], "form": base["form"], "ints": base["ints"], "phases": phases}
+    out = {"kind": "chain", "style": style, "W": base["W"], "H": base["H"], "mods": base["mods"], "nets": base["nets"],
+           "names": base["names"], "form": base["form"], "ints": base["ints"], "phases": phases}
+    if base.get("struct"):
+        out["struct"] = base["struct"]
+    return out
 
 
 # ---------------------------------------------------------------- recenter_rectangles driven directly
@@ -527,13 +779,16 @@ class Recorder:
 
         def norm(x, max_span, is_fixed, *more, **kw):
             before = list(x)
+            t = rec.trials[-1]
+            if not t["dims"] or t["dims"][-1]["id"] != id(max_span):
+                t["dims"].append({"id": id(max_span), "spans": list(max_span), "fx": list(is_fixed), "calls": []})
             try:
-                return rec.orig_norm(x, max_span, is_fixed, *more, **kw)
-            finally:
-                t = rec.trials[-1]
-                if not t["dims"] or t["dims"][-1]["id"] != id(max_span):
-                    t["dims"].append({"id": id(max_span), "spans": list(max_span), "fx": list(is_fixed), "calls": []})
-                t["dims"][-1]["calls"].append((before, list(x)))
+                r = rec.orig_norm(x, max_span, is_fixed, *more, **kw)
+            except (ValueError, ZeroDivisionError, AssertionError) as e:
+                t["dims"][-1]["norm_raised"] = [before, EXC[type(e).__name__]]     # a call that did not return
+                raise
+            t["dims"][-1]["calls"].append((before, list(x)))
+            return r
 
         def die(adj, mass, size, initial, fixed, *more, **kw):
             rec.trials.append({"dims": [], "ini": [list(r) for r in initial]})
@@ -553,7 +808,7 @@ class Recorder:
         return False
 
 
-def summarise(trials, rng):
+def summarise(trials, rng, look=None):
     """what is kept of the recorded calls: the replayed inputs, a sample for the kernel check, the monitor"""
     out, mon = [], {"calls": 0, "tiny_entries": 0, "bound_broken": 0, "worst_excess": 0.0}
     for t in trials:
@@ -575,9 +830,18 @@ def summarise(trials, rng):
                 sample = sorted(set(idx) | {rng.randrange(n) for _ in range(4)}) if n else []
             else:       # quick tier: the first, the last and two other calls
                 sample = sorted({0, n - 1} | {rng.randrange(n) for _ in range(2)}) if n else []
+            # iterations looked into: iteration k+1 turns the output of call k into the input / output of call k+1
+            # (the first ITER_HEAD, the last two; all of a short run)
+            m = n - 1
+            head, tail, nmax, ntr = look or (1, 1, 8, 1)
+            ks = list(range(m)) if m <= head + tail else sorted(set(range(head)) | set(range(m - tail, m)))
+            if len(d["spans"]) > nmax or len(out) >= ntr:
+                ks = []
             dims.append({"n": n, "spans": d["spans"], "fx": d["fx"], "replay": [calls[i][0] for i in idx],
                          "last_out": calls[-1][1] if n else None,
-                         "sample": [[calls[i][0], calls[i][1]] for i in sample]})
+                         "sample": [[calls[i][0], calls[i][1]] for i in sample], "norm_raised": d.get("norm_raised"),
+                         "steps": [{"k": k, "c": calls[k][1], "v": calls[k + 1][0], "c2": calls[k + 1][1],
+                                    "last": k == m - 1} for k in ks]})
         out.append({"dims": dims, "ret": t.get("ret"), "wl": t.get("wl"), "iters": t.get("iters")})
     return out, mon
 
@@ -627,22 +891,116 @@ def snap(nl):
     return {"mods": ms, "nets": [[[b.name for b in e.modules], e.weight] for e in nl.edges]}
 
 
-def build_spectral(desc):
-    """Spectral(...) from the YAML text or from a file holding it"""
-    import os
-    import tempfile
-    from tools.spectral.spectral import Spectral
-    text = layout_yaml(desc)
-    if desc.get("form") == "file":
-        core.WORK_ROOT.mkdir(exist_ok=True)
-        fd, path = tempfile.mkstemp(suffix=".yaml", dir=str(core.WORK_ROOT))
-        try:
+def desc_nets(desc):
+    """the nets as the caller wrote them: module names in the order listed (a module may be listed twice), weight"""
+    return [[list(e["mods"]), float(e["w"])] for e in desc["nets"]]
+
+
+NL_KEYS = ("name", "area", "regions", "flags", "rects")
+
+
+def reference(desc):
+    """the INPUT by value: the netlist text read by the plain Netlist class before any Spectral object exists; the
+    nets are taken from the description itself (names as listed, weight)"""
+    from frame.geometry.geometry import Rectangle
+    from frame.netlist.netlist import Netlist
+    Rectangle.undefine_epsilon()
+    try:
+        ref = snap(Netlist(layout_yaml(desc)))
+    finally:
+        Rectangle.undefine_epsilon()
+    ref["nets_read"], ref["nets"] = ref["nets"], desc_nets(desc)
+    return ref
+
+
+class Input:
+    """the argument handed to Spectral(...): YAML text, the name of a file holding it, an open stream, a YAML tree;
+    and whether it is still what it was afterwards (the constructor must not alter its arguments)"""
+
+    def __init__(self, desc):
+        self.text, self.form = layout_yaml(desc), desc.get("form", "text")
+        self.path = self.tree = self.tree0 = None
+
+    def arg(self):
+        import copy
+        import io
+        import os
+        import tempfile
+        from ruamel.yaml import YAML
+        if self.form in ("file", "handle"):
+            core.WORK_ROOT.mkdir(exist_ok=True)
+            fd, self.path = tempfile.mkstemp(suffix=".yaml", dir=str(core.WORK_ROOT))
             with os.fdopen(fd, "w") as f:
-                f.write(text)
-            return Spectral(path)
-        finally:
-            os.unlink(path)
-    return Spectral(text)
+                f.write(self.text)
+            if self.form == "handle":
+                self.handle = open(self.path)
+                return self.handle
+            return self.path
+        if self.form == "tree":
+            self.tree = YAML(typ="safe").load(self.text)
+            self.tree0 = copy.deepcopy(self.tree)
+            return self.tree
+        if self.form == "stream":
+            return io.StringIO(self.text)
+        return self.text
+
+    def damage(self):
+        import copy
+        from frame.geometry.geometry import Rectangle
+        from frame.netlist.netlist import Netlist
+        if self.path is not None:
+            with open(self.path) as f:
+                if f.read() != self.text:
+                    return "the netlist file handed to the constructor was rewritten"
+        if self.tree is not None and self.tree != self.tree0:
+            # by meaning, not by representation: both trees read by the plain Netlist class
+            eps_was = (Rectangle._distance_epsilon, Rectangle._area_epsilon)
+            try:
+                Rectangle.undefine_epsilon()
+                a = snap(Netlist(copy.deepcopy(self.tree0)))
+                Rectangle.undefine_epsilon()
+                try:
+                    b = snap(Netlist(copy.deepcopy(self.tree)))
+                except Exception as e:
+                    return f"the YAML tree handed to the constructor is no longer a netlist ({type(e).__name__})"
+                if a["nets"] != b["nets"]:
+                    return f"the nets of the YAML tree handed to the constructor changed: {a['nets']} -> {b['nets']}"
+                if [[m[k] for k in NL_KEYS] for m in a["mods"]] != [[m[k] for k in NL_KEYS] for m in b["mods"]]:
+                    return "the modules of the YAML tree handed to the constructor changed"
+            finally:
+                Rectangle._distance_epsilon, Rectangle._area_epsilon = eps_was
+        return None
+
+    def close(self):
+        import os
+        if getattr(self, "handle", None) is not None:
+            self.handle.close()
+        if self.path is not None:
+            try:
+                os.unlink(self.path)
+            except OSError:
+                pass
+
+
+def build_spectral(desc):
+    """(Spectral(...), the Input it was built from)"""
+    from tools.spectral.spectral import Spectral
+    inp = Input(desc)
+    try:
+        return Spectral(inp.arg()), inp
+    except BaseException:
+        inp.close()
+        raise
+
+
+def call_layout(s, desc, call):
+    """one spectral_layout call; also: is the Shape handed over still the same afterwards?"""
+    shape = die_shape(desc, call["W"], call["H"])
+    w0, h0 = shape.w, shape.h
+    st = guarded(lambda: s.spectral_layout(shape, int(call["nf"]), False))
+    if (shape.w, shape.h) != (w0, h0):
+        st["damage"] = f"the die Shape handed to spectral_layout changed from {(w0, h0)} to {(shape.w, shape.h)}"
+    return st
 
 
 def die_shape(desc, W, H):
@@ -710,7 +1068,8 @@ def run_chain(case):
                 desc = edited(case, prev, ph["edit"], last, eps)
             Rectangle.undefine_epsilon()
             try:
-                s = build_spectral(desc)
+                ref = reference(desc)
+                s, inp = build_spectral(desc)
             except AssertionError as e:
                 if pi == 0:
                     raise
@@ -718,22 +1077,27 @@ def run_chain(case):
                 # negative coordinate): the chain ends here
                 obs["rebuild_rejected"] = str(e)[:200]
                 break
-            eps = Rectangle.distance_epsilon()
-            pobs = {"before": snap(s), "adj": [[[e.node, e.weight] for e in es] for es in s._adj], "eps": eps, "steps": []}
-            obs["phases"].append(pobs)
-            prev, raised = None, False
-            for call in ph["calls"]:
-                with Recorder() as rec:
-                    random.seed(int(call["seed"]))
-                    st = guarded(lambda: s.spectral_layout(die_shape(desc, call["W"], call["H"]), int(call["nf"]), False))
-                st.update(W=call["W"], H=call["H"], nf=int(call["nf"]), seed=int(call["seed"]), after=snap(s))
-                st["trials"], st["monitor"] = summarise(rec.trials, rng)
-                pobs["steps"].append(st)
-                last = call
-                if "ok" not in st:
-                    raised = True
-                    break
-                prev = st["after"]
+            try:
+                eps = Rectangle.distance_epsilon()
+                pobs = {"input": ref, "before": snap(s), "adj": [[[e.node, e.weight] for e in es] for es in s._adj],
+                        "eps": eps, "steps": [], "damage": inp.damage()}
+                obs["phases"].append(pobs)
+                prev, raised = None, False
+                for call in ph["calls"]:
+                    with Recorder() as rec:
+                        random.seed(int(call["seed"]))
+                        st = call_layout(s, desc, call)
+                    st.update(W=call["W"], H=call["H"], nf=int(call["nf"]), seed=int(call["seed"]), after=snap(s))
+                    st["trials"], st["monitor"] = summarise(rec.trials, rng, case.get("look"))
+                    pobs["steps"].append(st)
+                    pobs["damage"] = pobs["damage"] or st.get("damage") or inp.damage()
+                    last = call
+                    if "ok" not in st:
+                        raised = True
+                        break
+                    prev = st["after"]
+            finally:
+                inp.close()
             if raised:
                 break
     finally:
@@ -753,9 +1117,12 @@ def run_chain(case):
     return obs
 
 
-def gen_cli(rng):
+def gen_cli(rng, repeated=False, struct=False):
     """the command line tool: netlist file, die as '<W>x<H>' / die file / YAML text, --init or --bestof, output file"""
-    case = decorate(rng, gen_layout(rng))
+    case = gen_layout_struct(rng) if struct else gen_layout(rng)
+    if repeated:
+        repeat_pins(rng, case)
+    case = decorate(rng, case)
     case["kind"] = "cli"
     case["die_form"] = rng.choice(["string", "string", "file", "text"])
     return case
@@ -783,6 +1150,7 @@ def run_cli(case):
         with open(inp, "w") as f:
             f.write(text)
         before = snap(Netlist(text))
+        before["nets"] = desc_nets(case)           # the nets as the caller wrote them
         Rectangle.undefine_epsilon()
 
         def num(x):
@@ -799,6 +1167,9 @@ def run_cli(case):
         random.seed(int(case["seed"]))
         obs = guarded(lambda: SP.main("spectral", args))
         obs["before"] = canon_snapshot(before)
+        with open(inp) as f:
+            if f.read() != text:
+                obs["damage"] = "the input netlist file of the command line tool was rewritten"
         if "ok" in obs:
             Rectangle.undefine_epsilon()
             with open(out) as f:
@@ -962,23 +1333,29 @@ def run_impl(case):
             random.seed(int(case["seed"]))
             obs = guarded(lambda: rec.die(mk_adj(case["adj"]), fl(case["mass"]), [float(case["W"]), float(case["H"])],
                                           [fl(r) for r in case["ini"]], list(case["fx"])) and None)
-        obs["trials"], obs["monitor"] = summarise(rec.trials, rng)
+        obs["trials"], obs["monitor"] = summarise(rec.trials, rng, case.get("look"))
         obs["radius"] = [math.sqrt(m / math.pi) for m in fl(case["mass"])]
         return obs
     if k == "layout":
         from frame.geometry.geometry import Rectangle, Shape
         from tools.spectral.spectral import Spectral
         Rectangle.undefine_epsilon()
+        inp = None
         try:
-            s = build_spectral(case)
+            ref = reference(case)
+            s, inp = build_spectral(case)
             before = snap(s)
+            damage = inp.damage()
             adj = [[[e.node, e.weight] for e in es] for es in s._adj]
             with Recorder() as rec:
                 random.seed(int(case["seed"]))
-                obs = guarded(lambda: s.spectral_layout(die_shape(case, case["W"], case["H"]), int(case["nf"]), False))
-            obs["before"], obs["after"], obs["adj"] = before, snap(s), adj
-            obs["trials"], obs["monitor"] = summarise(rec.trials, rng)
+                obs = call_layout(s, case, case)
+            obs["input"], obs["before"], obs["after"], obs["adj"] = ref, before, snap(s), adj
+            obs["damage"] = damage or obs.get("damage") or inp.damage()
+            obs["trials"], obs["monitor"] = summarise(rec.trials, rng, case.get("look"))
         finally:
+            if inp is not None:
+                inp.close()
             Rectangle.undefine_epsilon()
         return obs
     raise ValueError(k)
@@ -1035,6 +1412,9 @@ def sample_checks(trials):
         for d in t["dims"]:
             for before, after in d["sample"]:
                 parts.append(f"norm_ok {gq(THR)} 8 {gl(before)} {gl(d['spans'])} {gbools(d['fx'])} (Ok {gl(after)})")
+            if d.get("norm_raised"):
+                before, exc = d["norm_raised"]
+                parts.append(f"norm_ok {gq(THR)} 8 {gl(before)} {gl(d['spans'])} {gbools(d['fx'])} (@{exc} (list Qc))")
     return parts
 
 
@@ -1088,6 +1468,43 @@ def trial_checks(trials, adj):
     return parts
 
 
+def gnets(inp):
+    """the nets of the input for the model: module indices in the order listed, weight"""
+    idx = {m["name"]: i for i, m in enumerate(inp["mods"])}
+    return glist([f"({glist([gnat(idx[n]) for n in e[0]])}, {gq(float(e[1]))})" for e in inp["nets"]])
+
+
+def iter_checks(trials, W, H, n):
+    """inside the loop of spectral_layout_die; the caller binds G (graph), M (masses), FX (fixed flags) with `let`:
+    every looked-into iteration against the model's step (the row handed to normalize), the convergence test after
+    it, and the number of iterations the call reports"""
+    eps = max(float(W), float(H)) * n * 1e-10            # as spectral_layout_die computes it
+    parts = []
+    for t in trials:
+        done = []
+        for di, d in enumerate(t["dims"]):
+            completed = di + 1 < len(t["dims"]) or t["ret"] is not None
+            prev = glist([gl([1.0] * n)] + [gl(r) for r in done])
+            for st in d["steps"]:
+                tol = gq(F(1, 10 ** 9) * core.frac(max([1.0] + [abs(x) for x in st["c"]])))
+                last = bool(st["last"] and completed)
+                parts.append(f"step_ok {gq(ATOL)} {gq(eps)} {tol} G M FX {prev} {gl(st['c'])} {gl(st['v'])} {gl(st['c2'])} "
+                             f"{gbool(last)} {gbool(d['n'] - 1 >= ITER_LIMIT)}")
+            if completed and t.get("iters") is not None and di < len(t["iters"]):
+                # every iteration ends in one normalize call
+                parts.append(gbool(t["iters"][di] == d["n"] - 1))
+            if d["last_out"] is None:
+                break
+            done.append(d["last_out"])
+    return parts
+
+
+def with_graph(G, M, FX, parts):
+    if not parts:
+        return []
+    return [f"let G := {G} in let M := {M} in let FX := {FX} in " + " && ".join(f"({p})" for p in parts)]
+
+
 def selected_trials(trials, nf):
     """the recorded trials as the model replays them; two trials with the same wire length up to rounding (mirrored
     solutions): which one wins is decided by the last bit, so the selected trial is replayed alone"""
@@ -1104,11 +1521,15 @@ def chain_to_coq(case, obs):
         adj = gadj(ph["adj"])
         size = max([1.0] + [max(float(st["W"]), float(st["H"])) for st in ph["steps"]])
         tol = gq(F(1, 10 ** 9) * core.frac(size))
-        ms = glist([gsmod(m, None, None) for m in ph["before"]["mods"]])
-        steps = []
+        # the model's object is built from the INPUT of the constructor (modules and nets as handed over)
+        inp = ph["input"]
+        ms = glist([gsmod(m, None, None) for m in inp["mods"]])
+        n = len(inp["mods"])
+        steps, inner = [], []
         for st in ph["steps"]:
             W, H = gq(float(st["W"])), gq(float(st["H"]))
             parts += trial_checks(st["trials"], adj)
+            inner += iter_checks(st["trials"], st["W"], st["H"], n)
             ntr = max(1, st["nf"])
             complete = len(st["trials"]) == ntr and all(t["ret"] is not None for t in st["trials"])
             if "ok" in st:
@@ -1120,7 +1541,8 @@ def chain_to_coq(case, obs):
             elif complete or not st["trials"]:
                 # raised outside the abstracted iteration: the model must fail as well
                 steps.append(f"({W}, {H}, {gnat(st['nf'])}, {glist([gtrial(t) for t in st['trials']])}, @None (list (smod Qc)))")
-        parts.append(f"session_from {gq(THR)} {tol} {ms} {adj} {glist(steps)}")
+        parts += with_graph(adj, gl([m["area"] for m in inp["mods"]]), gbools([m["flags"][0] for m in inp["mods"]]), inner)
+        parts.append(f"session_input {gq(THR)} {tol} {ms} {gnets(inp)} {adj} {glist(steps)}")
     return " && ".join(f"({p})" for p in parts) if parts else "true"
 
 
@@ -1167,6 +1589,8 @@ def to_coq(case, obs):
     tol = gq(F(1, 10 ** 9) * core.frac(max(float(case["W"]), float(case["H"]))))
     if k == "die":
         parts = sample_checks(obs["trials"])
+        parts += with_graph(gadj(case["adj"]), gl(case["mass"]), gbools(case["fx"]),
+                            iter_checks(obs["trials"], case["W"], case["H"], len(case["mass"])))
         t = obs["trials"][0]
         if "ok" in obs or t["ret"] is not None:
             parts.append(f"die_ok {gq(THR)} {tol} {W} {H} {gl(obs['radius'])} {gbools(case['fx'])} {gl(case['ini'][0])} "
@@ -1181,8 +1605,13 @@ def to_coq(case, obs):
         return " && ".join(f"({p})" for p in parts) if parts else "true"
     if k == "layout":
         parts = sample_checks(obs["trials"])
-        ms = glist([gsmod(m, W, H) for m in obs["before"]["mods"]])
+        # the model starts from the INPUT of the constructor: its modules, and the graph of its nets
+        inp = obs["input"]
+        ms = glist([gsmod(m, W, H) for m in inp["mods"]])
         adj = gadj(obs["adj"])
+        parts.append(f"graph_ok {gnat(len(inp['mods']))} {gnets(inp)} {adj}")
+        parts += with_graph(adj, gl([m["area"] for m in inp["mods"]]), gbools([m["flags"][0] for m in inp["mods"]]),
+                            iter_checks(obs["trials"], case["W"], case["H"], len(inp["mods"])))
         trs = glist([gtrial(t) for t in obs["trials"]])
         nf = gnat(int(case["nf"]))
         ntr = max(1, int(case["nf"]))
@@ -1241,8 +1670,8 @@ def layout_oracle(Wc, Hc, b, a):
     size = max(W, H)
     if not admissible_nl(W, H, b):
         return None
-    if b["nets"] != a["nets"]:
-        return "the nets changed"
+    if [[list(e[0]), float(e[1])] for e in b["nets"]] != [[list(e[0]), float(e[1])] for e in a["nets"]]:
+        return f"the nets changed: {b['nets']} -> {a['nets']}"
     if [m["name"] for m in b["mods"]] != [m["name"] for m in a["mods"]]:
         return "the modules changed"
     for mb, ma in zip(b["mods"], a["mods"]):
@@ -1286,6 +1715,23 @@ def layout_oracle(Wc, Hc, b, a):
     return None
 
 
+def constructed_oracle(inp, before):
+    """Spectral(netlist) is that netlist: the object, before any call, shows the areas and nets of the input"""
+    on_net = {n for e, _ in inp["nets"] for n in e}
+    if sum(1 for m in inp["mods"] if not m["flags"][0]) < 4 or any(m["name"] not in on_net for m in inp["mods"]):
+        return None                      # outside the quantifier
+    if inp["nets"] != [[list(e[0]), float(e[1])] for e in before["nets"]]:
+        return f"the constructor changed the nets of the input: {inp['nets']} -> {before['nets']}"
+    if [m["name"] for m in inp["mods"]] != [m["name"] for m in before["mods"]]:
+        return "the constructor changed the modules of the input"
+    for mi, mb in zip(inp["mods"], before["mods"]):
+        if (mi["area"], mi["regions"], mi["flags"]) != (mb["area"], mb["regions"], mb["flags"]):
+            return f"the constructor changed the area or the flags of module {mi['name']}"
+        if mi["rects"] != mb["rects"]:
+            return f"the constructor moved or reshaped the rectangles of module {mi['name']}"
+    return None
+
+
 def oracle(case, obs):
     k = case["kind"]
     if k == "normalize":
@@ -1303,7 +1749,13 @@ def oracle(case, obs):
     if k == "chain":
         # the property, call by call: the state of the object before the call is the "netlist" of that call
         for pi, ph in enumerate(obs["phases"]):
-            cur = ph["before"]
+            # the first call of an object is judged against the INPUT of its constructor, by value
+            cur = ph["input"]
+            if ph.get("damage"):
+                return f"phase {pi}: {ph['damage']}"
+            why = constructed_oracle(ph["input"], ph["before"])
+            if why:
+                return f"phase {pi}: {why}"
             for si, st in enumerate(ph["steps"]):
                 if "ok" not in st:
                     break
@@ -1345,7 +1797,16 @@ def oracle(case, obs):
                     if span >= 0 and abs(core.frac(y)) > span + 4 * ULP * size:
                         return f"node {i}: coordinate {y!r} in dimension {d} exceeds its span {float(span)!r}"
         return None
-    if k in ("layout", "cli"):
+    if k == "layout":
+        if obs.get("damage"):
+            return obs["damage"]
+        why = constructed_oracle(obs["input"], obs["before"])
+        if why or "ok" not in obs:
+            return why
+        return layout_oracle(case["W"], case["H"], obs["input"], obs["after"])
+    if k == "cli":
+        if obs.get("damage"):
+            return obs["damage"]
         if "ok" not in obs:
             return None
         return layout_oracle(case["W"], case["H"], obs["before"], obs["after"])
@@ -1396,6 +1857,12 @@ def run(ctx, out, replay=None):
     global SAMPLE_ALL
     quick = ctx.quick()
     SAMPLE_ALL = not quick
+    look_struct = [1, 1, 6, 1] if quick else [2, 1, 9, 2]       # structured cases: the degenerate paths are taken early
+    look_some = [1, 1, 5, 1] if quick else [1, 1, 7, 1]         # every 8th (thorough: 3rd) of the random ones
+    look_none = [0, 0, 0, 0]
+    nds = 12 if quick else 60           # structured graphs / starts: spectral_layout_die
+    nls = 15 if quick else 90           # ... Spectral.spectral_layout
+    ncs = 3 if quick else 12            # ... several calls on one object
     nk = 1800 if quick else 24000
     nd = 12 if quick else 80
     nl = 24 if quick else 180
@@ -1417,7 +1884,15 @@ def run(ctx, out, replay=None):
                 "are prefixes of each other or YAML words, trunk listed last; kind chain: several calls on ONE Spectral object "
                 "(other dies / trial counts / seeds, the same call twice) and a second object built from the layout the first "
                 "returned with hard modules put back, per axis, on the returned coordinate / off by less or more than the "
-                "distance epsilon / where they started / at the die's edge with the disc sticking out. non-trivial: kernels "
+                "distance epsilon / where they started / at the die's edge with the disc sticking out. STRUCTURED cases for the "
+                "deterministic init mode (kinds die and layout, some chains and cli): even and odd rings, paths, stars, complete "
+                "bipartite graphs, grids, the cube, trees, wheels, complete graphs (nodes renumbered in 30%), uniform weights; starts "
+                "with one value per side of the graph (mirror placement, 25% mirrored about the die's centre), +-d by parity, "
+                "symmetric about a point, equally spaced, three values, all equal, all at the centre; masses equal / the two sides in "
+                "exact balance (incl. a 1/64 share beside a 63/64 share) / one big / random, dyadic; 0 trials in 2 of 3. Nets that "
+                "list a module twice ([a,d,a,e], [a,a], [a,b,a], [a,a,a,b]) and the same net twice in every 4th layout, 25% of the "
+                "chains, every 3rd cli case. The netlist is handed over as text, file name, open file, StringIO or YAML tree. "
+                "non-trivial: kernels "
                 "with >= 2 entries not all fixed; rc with >= 2 rectangles; every die/layout/chain case")
     first = []
     if replay and "case" in replay:
@@ -1430,13 +1905,24 @@ def run(ctx, out, replay=None):
         light.append(gens[i % len(gens)](rng))
     for i in range(nd):
         heavy.append(gen_die(rng))
+    for i in range(nds):
+        heavy.append(gen_die_struct(rng))
     sizes = SIZES_QUICK if quick else SIZES_THOROUGH
     for i in range(nl):
         big = sizes[(i // 12) % len(sizes)] if i % 12 == 11 else None
         case = gen_layout(rng, big)
         if big:
             case["nf"] = min(case["nf"], 2)
+        if i % 4 == 1:
+            repeat_pins(rng, case)
         heavy.append(decorate(rng, case) if i % 2 else case)
+    for i in range(nls):
+        case = gen_layout_struct(rng, big=(i % 10 == 9))
+        if i % 5 == 4:
+            repeat_pins(rng, case)
+        heavy.append(decorate(rng, case) if i % 3 == 2 else case)
+    for i in range(ncs):
+        heavy.append(gen_chain(rng, base=gen_layout_struct(rng)))
     for i in range(nc):
         big = sizes[(i // 6) % len(sizes)] if i % 6 == 5 else None
         case = gen_chain(rng, min(big, 33) if big else None)
@@ -1446,7 +1932,10 @@ def run(ctx, out, replay=None):
                     call["nf"] = min(call["nf"], 2)
         heavy.append(case)
     for i in range(ncli):
-        heavy.append(gen_cli(rng))
+        heavy.append(gen_cli(rng, repeated=(i % 3 == 1), struct=(i % 3 == 2)))
+    every = 8 if quick else 3
+    for i, case in enumerate(heavy):
+        case["look"] = look_struct if case.get("struct") else look_some if i % every == 0 else look_none
     mon = {"calls": 0, "tiny_entries": 0, "bound_broken": 0, "worst_excess": 0.0, "returned": 0, "raised": {}}
 
     # the runs of the implementation are independent of each other (every case seeds `random` and resets the
@@ -1481,10 +1970,11 @@ def run(ctx, out, replay=None):
         return obs
 
     def dkey(c):
-        return c["kind"] + ("/" + c["style"] if c["kind"] in ("chain", "rc") else "")
+        return (c["kind"] + ("/" + c["style"] if c["kind"] in ("chain", "rc") else "") +
+                ("/struct:" + c["struct"].split("/")[0] if c.get("struct") else "") + ("/pins" if c.get("pins") else ""))
 
     agreements, timing = 0, {"implementation_on_layouts": t_pre}
-    for name, batch, shard, shr in (("corpus", first, 6, shrink), ("kernels", light, 250, shrink), ("layouts", heavy, 3, None)):
+    for name, batch, shard, shr in (("corpus", first, 3, shrink), ("kernels", light, 250, shrink), ("layouts", heavy, 2, None)):
         if not batch:
             continue
         t0 = time.time()
